@@ -123,7 +123,15 @@ func (w *SlowWriter) Write(p []byte) (int, error) {
 
 // --- generators of signatures and well-formed data ---------------------------
 
-type SigGen struct{ R *rand.Rand }
+type SigGen struct {
+	R *rand.Rand
+	// Large, when set, is how many strings / raw buffers of the data may
+	// still be drawn large (sizes around the powers of two a reader could
+	// use as a chunk size).
+	Large *int
+}
+
+var largeSizes = []int{4095, 4096, 4097, 65535, 65536, 65537, 131072, 196608, 200000}
 
 var scalarSigs = []string{"b", "c", "C", "w", "W", "i", "I", "l", "L", "f", "d", "s", "s", "m", "r"}
 
@@ -185,15 +193,25 @@ func (g SigGen) Data(sig string, b *ref.Buf, depth int) string {
 		b.U32(g.R.Uint32())
 	case 'l', 'L', 'd':
 		b.U64(g.R.Uint64())
-	case 's':
-		b.Str(g.Str())
-	case 'r':
-		b.Str(g.Str())
+	case 's', 'r':
+		if g.Large != nil && *g.Large > 0 {
+			*g.Large--
+			p := make([]byte, largeSizes[g.R.IntN(len(largeSizes))])
+			for i := range p {
+				p[i] = byte('a' + g.R.IntN(26))
+			}
+			b.Str(string(p))
+		} else {
+			b.Str(g.Str())
+		}
 	case 'v':
 	case 'm':
 		inner := g.Sig(depth - 1)
 		if depth <= 0 {
 			inner = []string{"i", "s", "b", "L"}[g.R.IntN(4)]
+		}
+		if g.Large != nil && *g.Large > 0 {
+			inner = []string{"r", "s"}[g.R.IntN(2)]
 		}
 		b.Str(inner)
 		g.Data(inner, b, depth-1)
